@@ -295,6 +295,14 @@ def conv_check(case):
     key = "C13:conversion"
 
     def close(cid, got, want):
+        if isinstance(want, (list, tuple)):
+            # the list-valued helpers are documented to return tuples (re-usable, indexable, hashable as static
+            # fields of a stepper) - a one-shot iterator would make the second evaluation of a stepper differ
+            if not res.true(cid + ":returns_tuple", isinstance(got, tuple), key=key + ":" + cid, msg=type(got).__name__):
+                try:
+                    got = tuple(got)
+                except Exception:  # noqa: BLE001
+                    return
         got = np.atleast_1d(np.asarray(got, dtype=float))
         want = np.atleast_1d(np.asarray(want, dtype=float))
         if not res.true(cid + ":length", got.shape == want.shape, key=key + ":" + cid):
